@@ -141,15 +141,18 @@ Definition idle_reset (s : src) : Prop :=
 
 (* the one fault callback a sender call delivers ([new]: the events of the call, newest first; q0 / r0: queue and ready
    counter at the start; t: transaction id at the start; ce0: condition code of the EOF PDU at the start):
-   it is the NEWEST event of the call and the only fault callback; it carries the transaction id; and
+   it is the only fault callback of the call, and the NEWEST event unless its kind is IGNORE (then the procedure that
+   declared the limit fault carries on, F34 repair: the positive ACK procedure re-sends the EOF, whose EOF-Sent indication
+   follows the callback; FaultTableProofs.Examples.source_ignore_declared); it carries the transaction id; and
    - its kind is what the table gives for its condition, and then
        abandon: the handler is idle, the parameters are reset, the queue is cleared and the ready counter is zero (F28),
        otherwise nothing queued was dropped, and for cancel an EOF PDU with that condition was queued in this call;
    - or it is the abandonment of a transaction whose EOF (cancel) exchange was already running with that condition. *)
 Definition src_fault_last (c : lcfg) (t : option (Z * Z)) (ce0 : option Z) (q0 : list pdu) (r0 : Z)
            (new : list event) (s' : src) : Prop :=
-  exists k a b cond pr older,
-    new = EvFault k a b cond pr :: older /\ no_fault older /\ t = Some (a, b) /\
+  exists k a b cond pr newer older,
+    new = newer ++ EvFault k a b cond pr :: older /\ no_fault newer /\ (k <> FH_IGNORE -> newer = []) /\
+    no_fault older /\ t = Some (a, b) /\
     ((get_fault_handler (l_faults c) cond = Some k /\
       (k = FH_ABANDON -> idle_reset s') /\
       (k <> FH_ABANDON -> exists added, s_queue s' = q0 ++ added /\ s_ready s' = r0 + zlen added /\
@@ -162,7 +165,8 @@ Definition source_call_post (s s' : src) : Prop :=
      src_fault_last (s_cfg s) (q_tid (s_p s)) (q_cond_eof (s_p s)) (s_queue s) (s_ready s) new s').
 
 (* (1)-(4) for the two calls of the sender that can deliver callbacks: at most ONE fault callback per call, as described
-   above; a call without a fault callback only appends to the queue *)
+   above; a call without a fault callback only appends to the queue.
+   (Statement changed with the F34 repair: before it the callback was always the newest event, "new = EvFault ... :: older".) *)
 Theorem c14_source_one_fault_callback : forall pkt a b s,
   source_call_post s (fst (state_machine_s pkt s)) /\ source_call_post s (fst (cancel_request_s a b s)).
 Proof. exact source_one_fault_callback. Qed.
@@ -173,10 +177,70 @@ Print Assumptions c14_source_one_fault_callback.
 Theorem c14_source_fault_events_follow_table : forall (cl : scall) (s : src),
   exists new, log_s (fst (sapply cl s)) = new ++ log_s s /\
     (no_fault new \/
-     exists kind a b cond prog older,
-       new = EvFault kind a b cond prog :: older /\ no_fault older /\
+     exists kind a b cond prog newer older,
+       new = newer ++ EvFault kind a b cond prog :: older /\ no_fault newer /\ (kind <> FH_IGNORE -> newer = []) /\
+       no_fault older /\
        q_tid (s_p s) = Some (a, b) /\
        (get_fault_handler (l_faults (s_cfg s)) cond = Some kind \/
         (kind = FH_ABANDON /\ q_cond_eof (s_p s) = Some cond /\ cond <> C_NO_ERROR))).
 Proof. exact source_fault_events_follow_table. Qed.
 Print Assumptions c14_source_fault_events_follow_table.
+
+(* ---------------------------------------------------------------- an IGNOREd limit fault lets its procedure carry on (F34 repair) *)
+(* (Before the repair the three procedures returned after the callback without advancing their counter or re-arming their
+   timer, so the fault was declared again by EVERY following state_machine call.) *)
+
+(* receiver, Check Limit Reached configured as IGNORE: one IGNORE callback, then the check counter is incremented and the
+   check timer restarted at the current time, exactly as at an expiry below the limit (s1: the state the failed
+   verification leaves) *)
+Theorem c14_dest_check_limit_ignored_continues : forall s s1 tm r r' a b t0 tmo,
+  p_check_timer (d_p s) = Some tm -> p_rcfg (d_p s) = Some r -> timed_out (now_d s) tm = true ->
+  checksum_verify s = (s1, Ok false) ->
+  p_rcfg (d_p s1) = Some r' -> r_check_limit r' <= p_check_count (d_p s1) + 1 ->
+  get_fault_handler (l_faults (d_cfg s1)) C_CHECK_LIMIT = Some FH_IGNORE ->
+  p_tid (d_p s1) = Some (a, b) -> p_check_timer (d_p s1) = Some (t0, tmo) ->
+  check_limit_handling s =
+    (s1 <| d_env ::= (fun en => en <| e_log ::= cons (EvFault FH_IGNORE a b C_CHECK_LIMIT (p_progress (d_p s1))) |>) |>
+        <| d_p ::= (fun p => p <| p_check_count ::= (fun c => c + 1) |> <| p_check_timer := Some (now_d s, tmo) |>) |>, Ok tt).
+Proof. exact dest_check_limit_ignored_continues. Qed.
+Print Assumptions c14_dest_check_limit_ignored_continues.
+(* so it is not declared again before the next expiry: while the check timer runs the procedure does nothing *)
+Theorem c14_dest_check_limit_waits : forall s tm r,
+  p_check_timer (d_p s) = Some tm -> p_rcfg (d_p s) = Some r -> timed_out (now_d s) tm = false ->
+  check_limit_handling s = (s, Ok tt).
+Proof. exact dest_check_limit_waits. Qed.
+Print Assumptions c14_dest_check_limit_waits.
+
+(* sender, Positive ACK Limit Reached configured as IGNORE: one IGNORE callback, then the positive ACK procedure carries on
+   as at an expiry below the limit: the EOF PDU is re-sent (checksum of the bytes sent), the EOF-Sent indication (if
+   enabled) follows the callback, the counter is incremented, the timer restarted at the current time; and the fault is
+   not declared again before the next expiry *)
+Theorem c14_source_pos_ack_limit_ignored_continues : forall s r tm a b ce ck,
+  q_ack_timer (s_p s) = Some tm -> q_rcfg (s_p s) = Some r -> timed_out (now_s s) tm = true ->
+  r_ack_limit r <= q_ack_counter (s_p s) + 1 ->
+  get_fault_handler (l_faults (s_cfg s)) C_POS_ACK_LIMIT = Some FH_IGNORE ->
+  q_tid (s_p s) = Some (a, b) -> q_cond_eof (s_p s) = Some ce ->
+  snd (checksum_calculation (q_progress (s_p s)) s) = Ok ck ->
+  exists s', handle_positive_ack_procedures_s s = (s', Ok tt) /\
+    log_s s' = (if l_ind_eof_sent (s_cfg s) then [EvEofSent a b] else []) ++
+               EvFault FH_IGNORE a b C_POS_ACK_LIMIT (q_progress (s_p s)) :: log_s s /\
+    s_queue s' = s_queue s ++ [PEof (hdr_of (q_conf (s_p s)) TOWARDS_RECEIVER) ce ck (q_progress (s_p s)) None] /\
+    s_ready s' = s_ready s + 1 /\
+    s_p s' = (s_p s) <| q_ack_timer := Some (now_s s, snd tm) |> <| q_ack_counter := q_ack_counter (s_p s) + 1 |> /\
+    s_state s' = s_state s /\ s_step s' = s_step s /\
+    (0 < snd tm -> handle_positive_ack_procedures_s s' = (s', Ok tt)).
+Proof. exact source_pos_ack_limit_ignored_continues. Qed.
+Print Assumptions c14_source_pos_ack_limit_ignored_continues.
+
+(* sender, Check Limit Reached (waiting for the Finished PDU) configured as IGNORE: one IGNORE callback, the check timer is
+   restarted at the current time, nothing else changes; not declared again before the next expiry *)
+Theorem c14_source_check_limit_ignored_continues : forall s tm a b,
+  q_check_timer (s_p s) = Some tm -> timed_out (now_s s) tm = true ->
+  get_fault_handler (l_faults (s_cfg s)) C_CHECK_LIMIT = Some FH_IGNORE -> q_tid (s_p s) = Some (a, b) ->
+  exists s', handle_wait_for_finish None s = (s', Ok tt) /\
+    log_s s' = EvFault FH_IGNORE a b C_CHECK_LIMIT (q_progress (s_p s)) :: log_s s /\
+    s_p s' = (s_p s) <| q_check_timer := Some (now_s s, snd tm) |> /\
+    s_queue s' = s_queue s /\ s_ready s' = s_ready s /\ s_state s' = s_state s /\ s_step s' = s_step s /\
+    (0 < snd tm -> handle_wait_for_finish None s' = (s', Ok tt)).
+Proof. exact source_check_limit_ignored_continues. Qed.
+Print Assumptions c14_source_check_limit_ignored_continues.
